@@ -194,7 +194,9 @@ class G:
             return {"c": "neg", "not": self.b(), "kw": self.pick(["debug", "edit", "variation"])}
         if k < 11:
             return {"c": "scn", "var": self.var(), "op": self.pick(SCN_OPS), "a": self.i(0, 60), "b": self.i(0, 9)}
-        name = self.pick(["BranchExecuteSub", "BranchSum", "BranchBit", "Branch"])
+        # only branch ops without own syntax; their parameter types are free (Branch / BranchBit written as
+        # operations would need the parameter types their special syntax prints)
+        name = self.pick(["BranchExecuteSub", "BranchSum"])
         self.n_op += 1
         nargs = T.OPS_BRANCH[name]
         args = [{"t": "int", "v": 200000 + self.n_op}] + [self.integer_like() for _ in range(nargs - 1)]
